@@ -113,6 +113,13 @@ Unusable(r) == CASE Prop = "C16" -> IF r.k \in {"reopen", "rebuild"} THEN {"Unus
                  [] Prop = "C04" -> IF r.k \notin {"reopen", "rebuild", "reset"} THEN {"Unusable"} ELSE {}
                  [] OTHER -> {}
 
+(* C05: every recorded answer satisfies QueryOK w.r.t. the retrievable set observed on the same *)
+(* line; "queries" lines carry a batch F[a+1 .. ], other lines the probe set F[1 .. ].          *)
+ReportQ(r) == LET base == IF r.k = "queries" THEN r.a ELSE 0 IN
+    \A i \in DOMAIN r.q :
+        LET v == QueryViol(ToSet(r.st.retr), F[base + i], r.q[i]) IN
+            IF v = {} THEN TRUE ELSE PrintT(<<"BADQ", l, r.h, base + i, r.q[i].r, v>>)
+
 Report(v, r) == IF v = {} THEN TRUE ELSE PrintT(<<"BAD", l, r.h, r.k, r.a, r.res, v>>)
 
 Init == /\ l = 1
@@ -133,6 +140,7 @@ Step == /\ l <= Len(Rec)
              /\ (IF r.k # "reset" /\ ok /\ ~Skip(r)
                  THEN (IF Valid(r.st) THEN Report(Viol(cur.st, cur.q, r), r) ELSE Report(Unusable(r), r))
                  ELSE TRUE)
+             /\ (IF Prop = "C05" /\ Valid(r.st) THEN ReportQ(r) ELSE TRUE)
              /\ cur' = [st |-> r.st, q |-> r.q]
              /\ l' = l + 1
 
